@@ -76,10 +76,11 @@ type State struct {
 	canon   map[string]RV // canonical load of a cell with unknown content
 	nilOf   map[RV]bool   // values whose nil test was decided at a branch on this path: true = nil
 	lens    map[RV]int64  // length of the slice an append produced when it last ran on this path
+	loaded  map[RV]RV     // content of a local cell as of the last execution of a load instruction (a later store to the cell does not change what was loaded)
 }
 
 func newState() *State {
-	return &State{lens: map[RV]int64{}, nilOf: map[RV]bool{}, canon: map[string]RV{}, mem: map[string]RV{}, bind: map[RV][]RV{}, sel: map[RV]int{}, phi: map[RV]RV{}, visits: map[[2]int]int{}, dargs: map[*Frame][][]RV{},
+	return &State{loaded: map[RV]RV{}, lens: map[RV]int64{}, nilOf: map[RV]bool{}, canon: map[string]RV{}, mem: map[string]RV{}, bind: map[RV][]RV{}, sel: map[RV]int{}, phi: map[RV]RV{}, visits: map[[2]int]int{}, dargs: map[*Frame][][]RV{},
 		defers: map[*Frame][]*ssa.Defer{}, decided: map[RV]bool{}}
 }
 
@@ -93,6 +94,9 @@ func (s *State) clone() *State {
 	}
 	for k, v := range s.lens {
 		n.lens[k] = v
+	}
+	for k, v := range s.loaded {
+		n.loaded[k] = v
 	}
 	for k, v := range s.bind {
 		n.bind[k] = v
@@ -454,6 +458,10 @@ func (e *PPA) Resolve(st *State, rv RV) RV {
 			if v.Op != token.MUL {
 				return rv
 			}
+			if lv, ok := st.loaded[rv]; ok {
+				rv = lv
+				continue
+			}
 			if key, ok := e.cellKey(st, RV{rv.F, v.X}); ok {
 				if val, ok := st.mem[key]; ok {
 					rv = val
@@ -797,6 +805,15 @@ func (e *PPA) exec(fr *Frame, b *ssa.BasicBlock, i int, st *State, k cont) {
 		case *ssa.Send:
 			e.emit(st, Ev{Label: "send:" + Expr(in.Chan), In: in, F: fr, Blocking: true, Field: fieldOf(in.Chan), Args: []RV{e.Resolve(st, RV{fr, in.Chan}), e.Resolve(st, RV{fr, in.X})}})
 		case *ssa.UnOp:
+			if in.Op == token.MUL {
+				// the value a load of a local cell yields is fixed when the load runs
+				delete(st.loaded, RV{fr, in})
+				if key, ok := e.cellKey(st, RV{fr, in.X}); ok {
+					if val, ok := st.mem[key]; ok {
+						st.loaded[RV{fr, in}] = val
+					}
+				}
+			}
 			if in.Op == token.ARROW {
 				e.emit(st, Ev{Label: "recv:" + Expr(in.X), In: in, F: fr, Blocking: true, Field: fieldOf(in.X), Args: []RV{e.Resolve(st, RV{fr, in.X})}})
 			}
@@ -909,6 +926,12 @@ func (e *PPA) exec(fr *Frame, b *ssa.BasicBlock, i int, st *State, k cont) {
 					e.emit(st, ev)
 				}
 				continue
+			}
+			// maps.DeleteFunc(m, pred) by its documented contract: pred is called for the entries of m, an entry
+			// for which it reports true is deleted.  Replayed with 0, 1 and (when the loop bound allows) 2 entries;
+			// the key and value of an entry are the closure's own (symbolic) parameters.
+			if e.mapsDeleteFunc(fr, b, i, in, st, k) {
+				return
 			}
 			callee := e.calleeOf(st, fr, &in.Call)
 			if debugCalls && !in.Call.IsInvoke() && staticCallee(&in.Call) == nil {
@@ -1734,3 +1757,65 @@ func zeroConst(t types.Type) *ssa.Const {
 }
 
 var debugCalls = os.Getenv("VERIF_DEBUG_CALLS") != ""
+
+
+// mapsDeleteFunc models a call of maps.DeleteFunc whose predicate is a closure of the module (see exec).
+func (e *PPA) mapsDeleteFunc(fr *Frame, b *ssa.BasicBlock, i int, in *ssa.Call, st *State, k cont) bool {
+	g := staticCallee(&in.Call)
+	if g == nil || pkgPathOf(g) != "maps" || !strings.HasPrefix(g.Name(), "DeleteFunc") || len(in.Call.Args) != 2 {
+		return false
+	}
+	pv := e.Resolve(st, RV{fr, in.Call.Args[1]})
+	mc, ok := pv.V.(*ssa.MakeClosure)
+	if !ok {
+		return false
+	}
+	pred, ok := mc.Fn.(*ssa.Function)
+	if !ok || len(pred.Blocks) == 0 || len(pred.Params) != 2 || fr.depth() >= e.MaxDepth {
+		return false
+	}
+	var bind []RV
+	for _, bnd := range mc.Bindings {
+		bind = append(bind, e.Resolve(st, RV{pv.F, bnd}))
+	}
+	m := e.Resolve(st, RV{fr, in.Call.Args[0]})
+	maxIter := 1
+	if e.MaxVisits >= 2 {
+		maxIter = 2
+	}
+	var run func(st *State, done, total int)
+	run = func(st *State, done, total int) {
+		if done == total {
+			e.exec(fr, b, i+1, st, k)
+			return
+		}
+		nf := e.newFrame(pred, fr, nil, bind, in) // parameters stay symbolic: the entry's key and value
+		e.enter(nf, nil, pred.Blocks[0], st, func(st *State, rets []RV) {
+			del, known := false, false
+			if len(rets) == 1 {
+				del, known = e.evalCond(st, rets[0])
+			}
+			emit := func(st *State) {
+				ev := Ev{Label: "builtin:delete", In: in, F: fr, Args: []RV{m, {nf, pred.Params[0]}}}
+				ev.Base, ev.Field = loadedField(e, st, RV{fr, in.Call.Args[0]})
+				e.emit(st, ev)
+			}
+			switch {
+			case known && del:
+				emit(st)
+				run(st, done+1, total)
+			case known:
+				run(st, done+1, total)
+			default:
+				s2 := st.clone()
+				emit(st)
+				run(st, done+1, total)
+				run(s2, done+1, total)
+			}
+		})
+	}
+	for total := 0; total <= maxIter; total++ {
+		run(st.clone(), 0, total)
+	}
+	return true
+}
